@@ -7,9 +7,12 @@ import (
 	"encoding/json"
 	"fmt"
 	"os"
+	"os/exec"
 	"path/filepath"
+	"runtime"
 	"sort"
 	"strings"
+	"sync"
 	"testing"
 
 	"github.com/tucats/ego/internal/verifh/vh"
@@ -128,7 +131,12 @@ func TestC05Corpus(t *testing.T) {
 	}
 
 	arena := arenaDir(t)
-	_ = os.Chdir(arena)
+
+	// `ego test` is run from the root of the source tree: several tests import
+	// packages by a path relative to it ("tests/packages/employee")
+	if err := os.Chdir(root); err != nil {
+		t.Fatal(err)
+	}
 
 	if c := vh.ReplayCase(); c != nil {
 		var cc corpusCase
@@ -148,16 +156,34 @@ func TestC05Corpus(t *testing.T) {
 		return
 	}
 
+	// The interpreter's settings are process-global, so files cannot be run
+	// concurrently in one process; the corpus is sharded over worker processes of
+	// this same test binary instead and the parent merges their reports.
+	shard, shards := 0, 1
+
+	if sp := os.Getenv("FMT5_SHARD"); sp != "" {
+		if _, err := fmt.Sscanf(sp, "%d/%d", &shard, &shards); err != nil || shards < 1 || shard < 0 || shard >= shards {
+			t.Fatalf("bad FMT5_SHARD %q", sp)
+		}
+	} else if os.Getenv("FMT5_ONLY") == "" {
+		runCorpusShards(t, r, arena, root)
+
+		return
+	}
+
 	known := vh.KnownKeys("C05")
 	avoid := newAvoid(known)
 	files := corpusFiles(root)
-	rng := vh.Rand("c05-corpus")
 	variants := vh.N(1, 8)
 
 	only := os.Getenv("FMT5_ONLY") // development aid: substring filter on the path
 
-	for _, path := range files {
+	for fileIndex, path := range files {
 		if only != "" && !strings.Contains(path, only) {
+			continue
+		}
+
+		if fileIndex%shards != shard {
 			continue
 		}
 
@@ -344,6 +370,15 @@ func TestC05Corpus(t *testing.T) {
 						r.Count("inconclusive.step_budget", 1)
 					default:
 						d = compareTestRuns(*env.TestBase, fr, env)
+						if d != "" {
+							s3 := runTestFile(src, filepath.Base(rel), arena, false)
+							if compareTestRuns(*env.TestBase, s3, env) != "" {
+								d = ""
+
+								r.Count("inconclusive.self_unstable_program", 1)
+							}
+						}
+
 						if d != "" && (o.LineSens || testLineSensitive(src, *env.TestBase, env)) {
 							d = ""
 
@@ -376,6 +411,19 @@ func TestC05Corpus(t *testing.T) {
 		for _, s := range cand {
 			offs[s.Off] = true
 		}
+
+		// one PRNG stream per file: what a file is decorated with does not depend on
+		// how the corpus is sharded
+		rng := vh.Rand("c05-corpus/" + rel)
+
+		// quick tier: a PRNG-chosen third of the files gets decorated variants
+		if vh.Tier() == "quick" && rng.Intn(3) != 0 {
+			r.Count("decorated.files_not_chosen_in_quick_tier", 1)
+
+			continue
+		}
+
+		r.Count("decorated.files_chosen", 1)
 
 		for v := 0; v < variants; v++ {
 			density := 0.02 + rng.Float64()*0.2
@@ -415,8 +463,7 @@ func TestC05Corpus(t *testing.T) {
 			}
 
 			r.Count("decorated.accepted", 1)
-			r.Count("comments.inserted", int64(len(inserted)))
-			r.Count("comments.in_sources", int64(len(tokComments(S))))
+			countComments(r, S, inserted)
 
 			if do.F != "" {
 				r.Count("events.format_ok", 1)
@@ -457,7 +504,7 @@ func TestC05Corpus(t *testing.T) {
 		}
 	}
 
-	if r.Counters["files.accepted"] == 0 {
+	if r.Counters["files.accepted"] == 0 && shards == 1 {
 		t.Fatal("observed nothing")
 	}
 
@@ -479,4 +526,107 @@ func hasKind(fs []Finding, kind string) bool {
 	}
 
 	return false
+}
+
+// runCorpusShards starts the worker processes, waits for them and merges their
+// reports into r. A worker that leaves no report is a harness error.
+func runCorpusShards(t *testing.T, r *vh.Report, arena, root string) {
+	workers := runtime.NumCPU() / 2
+	if workers > 8 {
+		workers = 8
+	}
+
+	if workers < 1 {
+		workers = 1
+	}
+
+	type result struct {
+		out string
+		log []byte
+		err error
+	}
+
+	res := make([]result, workers)
+
+	var wg sync.WaitGroup
+
+	for i := 0; i < workers; i++ {
+		wg.Add(1)
+
+		go func(i int) {
+			defer wg.Done()
+
+			wa := filepath.Join(arena, fmt.Sprintf("shard-%d", i))
+			_ = os.MkdirAll(wa, 0o755)
+			res[i].out = filepath.Join(arena, fmt.Sprintf("shard-%d.json", i))
+			_ = os.Remove(res[i].out)
+
+			cmd := exec.Command(selfExe, "-test.run", "^TestC05Corpus$", "-test.timeout", "0", "-test.count", "1")
+			wh := filepath.Join(wa, "home") // workers must not share a profile directory
+			_ = os.MkdirAll(wh, 0o755)
+			cmd.Env = append(os.Environ(), fmt.Sprintf("FMT5_SHARD=%d/%d", i, workers), "VERIF_OUT="+res[i].out, "VERIF_ARENA="+wa, "VERIF_HOME="+wh)
+			cmd.Dir = root
+			res[i].log, res[i].err = cmd.CombinedOutput()
+		}(i)
+	}
+
+	wg.Wait()
+
+	r.Count("shards.workers", int64(workers))
+
+	for i := range res {
+		raw, err := os.ReadFile(res[i].out)
+		if err != nil {
+			t.Fatalf("harness error: corpus worker %d left no report (%v): %s", i, res[i].err, trunc(string(res[i].log), 1500))
+		}
+
+		var w vh.Report
+		if err := json.Unmarshal(raw, &w); err != nil {
+			t.Fatalf("harness error: corpus worker %d report unreadable: %v", i, err)
+		}
+
+		if res[i].err != nil {
+			t.Fatalf("harness error: corpus worker %d failed: %v: %s", i, res[i].err, trunc(string(res[i].log), 1500))
+		}
+
+		r.Evaluations += w.Evaluations
+		r.Distinct += w.Distinct // shards hold disjoint files
+
+		for k, v := range w.Counters {
+			switch {
+			case k == "violations_raw":
+				// the merged report keeps at most 3 witnesses per key and worker; the true
+				// number of refuted cases is kept here
+				r.Count("violations_raw_in_workers", v)
+			case !strings.HasPrefix(k, "violations_") && k != "inconclusive":
+				r.Count(k, v)
+			}
+		}
+
+		for _, v := range w.Violations {
+			r.Violate(v)
+		}
+
+		for _, x := range w.Inconclusive {
+			r.Inconcl(x)
+		}
+
+		for _, x := range w.Notes {
+			r.Note(x)
+		}
+
+		for _, x := range w.Samples {
+			if i < 3 {
+				r.Sample(x)
+			}
+		}
+	}
+
+	if r.Counters["files.accepted"] == 0 {
+		t.Fatal("observed nothing")
+	}
+
+	if err := r.Write(); err != nil {
+		t.Fatal(err)
+	}
 }
